@@ -40,7 +40,8 @@ P = {
     "C04": dict(
         technique="round-trip and identity property-based testing over the exhaustive (source system x to_* target x backend x flavor x keyword) lattice",
         text="Exploration; the conversion lattice is enumerated completely, values generated per cell; identity and "
-             "pass-through are checked bit-for-bit, round trips at 1e-40 (mp) / 1e-9 (float64).",
+             "pass-through are checked bit-for-bit, round trips at 1e-40 (mp) / 1e-9 (float64); on Awkward arrays and records also "
+             "the sequence read -> replace a stored field in place -> convert, against a freshly assembled array.",
         ref="DESIGN.md section 2, C04"),
     "C05": dict(
         technique="exhaustive enumeration of the (method x signature x flavor x backend pairing x dimension pairing) lattice, of every conversion/projection/like() per backend kind, and of every operator vs its method, against a rule table written from the statement",
@@ -56,7 +57,8 @@ P = {
         ref="DESIGN.md section 2, C07"),
     "C08": dict(
         technique="differential property-based testing: SymPy expressions lambdified with mpmath vs the 60-digit object backend and the float64 object backend at generated regular-domain points",
-        text="Exploration over every operation x signature with generated points of the documented regular domain.",
+        text="Exploration over every operation x signature with generated points of the documented regular domain; isclose is decided "
+             "at identical stored coordinates of either sign and at single coordinates off by 30 %.",
         ref="DESIGN.md section 2, C08"),
     "C09": dict(
         technique="algebraic-law property-based testing of boosts (invariance of the Minkowski product, inverse, collinear composition, spelling identities) on the 60-digit and float64 backends",
@@ -72,7 +74,8 @@ P = {
         ref="DESIGN.md section 2, C11"),
     "C12": dict(
         technique="property-based testing of ==/!=/isclose coherence laws on generated pairs (identical / one stored component differs / several / all) across systems and backends",
-        text="Exploration; boolean laws are exact (no tolerance involved) on generated pairs in every system pairing and backend.",
+        text="Exploration; boolean laws are exact (no tolerance involved) on generated pairs in every system pairing and backend, "
+             "also for operands carrying a non-coordinate field with different values.",
         ref="DESIGN.md section 2, C12"),
     "C13": dict(
         technique="property-based testing of range/sign/classification invariants on stratified operands incl. exact boundary inputs, float64 backends and 60-digit backend",
@@ -80,7 +83,8 @@ P = {
         ref="DESIGN.md section 2, C13"),
     "C14": dict(
         technique="exhaustive enumeration of the synonym table x backend x coordinate system with generated values; bit-for-bit comparison of synonym vs geometric name",
-        text="Exploration with the synonym lattice enumerated completely.",
+        text="Exploration with the synonym lattice enumerated completely; NumPy dtypes list their fields in canonical, reversed and "
+             "rotated order and every synonym is also compared with the generic vector holding the same stored coordinates.",
         ref="DESIGN.md section 2, C14"),
     "C15": dict(
         technique="stateful (model-based) property testing: Hypothesis RuleBasedStateMachine over assignments and in-place operators with an explicit model of the stored coordinates",
@@ -92,15 +96,15 @@ P = {
         ref="DESIGN.md section 2, C16"),
     "C17": dict(
         technique="differential property-based testing of reductions against exact (fsum) Cartesian component sums of the elements, generated arrays/axes/keepdims",
-        text="Exploration over generated NumPy/Awkward arrays in all systems and flavors.",
+        text="Exploration over generated NumPy/Awkward arrays in all systems and flavors (empty and missing lists, missing vectors inside lists).",
         ref="DESIGN.md section 2, C17"),
     "C18": dict(
         technique="property-based testing over generated Awkward layouts (jagged, nested, option-typed, extra fields): structure/field preservation and record-vs-object differential",
-        text="Exploration over generated layouts x operations x systems x flavors.",
+        text="Exploration over generated layouts x operations x systems x flavors, extra fields incl. an option-typed one.",
         ref="DESIGN.md section 2, C18"),
     "C19": dict(
         technique="property-based testing of NumPy vector arrays against plain-ndarray indexing as reference model (generated shapes and index expressions), pickle/copy round trips",
-        text="Exploration over generated shapes up to rank 3 and index expressions in all 20 systems x 2 flavors.",
+        text="Exploration over generated shapes up to rank 3 and index expressions (incl. the empty tuple / list and Python-list indices) in all 20 systems x 2 flavors.",
         ref="DESIGN.md section 2, C19"),
     "C20": dict(
         technique="stateful property testing of global-state invariants over generated call histories under generated prior configurations; re-evaluation of every call afterwards and in a fresh interpreter (purity); generated thread schedules vs sequential execution with process-wide state compared around every threaded phase",
